@@ -105,6 +105,30 @@ def sub (wrap : τ → σ) (x : S τ α) : S σ α := ofM (toM x >>= fun r => ma
 def attempt (x : S σ (α × σ)) : S σ (Except ZErr α × σ) := ofM (toM x >>= fun r => match r with
   | .ok (a, s) => pure (.ok (.ok a, s))
   | .error (e, s) => pure (.ok (.error e, s)))
+/-- `opt.ok_or(e)?` / `opt.ok_or_else(|| e)?` -/
+def okOr (o : Option α) (e : ZipErr) (st : σ) : S σ α :=
+  match o with
+  | some a => pure a
+  | none => ofM (pure (.error (zerr e, st)))
+
+/-- what a translated serialiser (`Rs.W Act`) handed to the sink, replayed on the device -/
+def replay : List Act → M Unit
+  | [] => pure ()
+  | .write bs :: as => do M.writeAll bs; replay as
+  | .seek p :: as => do let _ ← M.seek (.start p.toNat); replay as
+
+/-- `serialiser(writer, …)?` with the bare sink: its writes and seeks in order (every one of them is
+followed by `?` in the serialiser, so the first device error ends the call), then its own outcome -/
+def runW (x : W Act α) (st : σ) : S σ α := ofM (do
+  let r ← M.attempt (replay x.log)
+  match r with
+  | .error e => pure (.error (e, st))
+  | .ok _ =>
+    match x.res with
+    | some (.ok a) => pure (.ok a)
+    | some (.error e) => pure (.error (zerr e, st))
+    | none => M.panic "rs2lean: checked operation")
+
 /-- the method as a step of the model's writer: outcome and final `self` -/
 def run (x : S σ (α × σ)) : M (Except ZErr α × σ) := toM x >>= fun r => match r with
   | .ok (a, s) => pure (.ok a, s)
@@ -144,6 +168,35 @@ def enc_write (ext : Ext) (i : Inner) (buf : Bytes) : M (Except ZErr UInt64 × I
   | .compressor m l enc pending =>
     pure (.ok (UInt64.ofNat (ext.accept buf)), .compressor m l enc (pending ++ buf.take (ext.accept buf)))
   | .closed => M.panic "rs2lean: write through a closed writer"
+
+/-- The panic of `position` below. -/
+def OVF : String := "rs2lean: sink position exceeds u64"
+
+/-- `writer.stream_position()` on the bare sink (before `?`): one `seek(Current(0))` call.  A real sink's
+position IS a `u64`; the model's device counts in `Nat`, so on a (model-only) device whose position
+does not fit the translated code stops with the distinguished panic `OVF` - Tie theorems for methods
+that read positions are refinements "equal to the model wherever not `OVF`" (`Tie/WriterSM.lean`). -/
+def position : M UInt64 := do
+  let p ← M.streamPosition
+  if p < 18446744073709551616 then pure (UInt64.ofNat p) else M.panic OVF
+
+/-- a `CompressionMethod` value as the model's `Method` (instance for the generated enum: `Tie/Types.lean`) -/
+class IsMethod (μ : Type) where
+  toModel : μ → Model.Method
+
+/-- `inner.switch_to(method, level)`: the model's `switchTo` (finish the current encoder - its whole
+output goes to the sink or into the ZipCrypto buffer -, check the level, start the new encoder) -/
+def switch_to {μ : Type} [IsMethod μ] (ext : Ext) (i : Inner) (m : μ) (level : Option Int32) :
+    M (Except ZErr Unit × Inner) := do
+  let (r, s) ← Model.switchTo ext.toWExt (IsMethod.toModel m) (level.map Int32.toInt) { WState.init with inner := i }
+  pure (r, s.inner)
+
+/-- `ZipCryptoWriter::finish(crc32)`: patch the check byte into the 12-byte header, encrypt the
+buffer, hand it to the sink (`write_all`), `flush`; the value is the bare sink -/
+def zc_finish (ext : Ext) (e : EncState) (crc : UInt32) : M Unit :=
+  if e.buffer.length < 12 then M.panic "zipcrypto.rs:133 buffer[11]" else do
+    M.writeAll (ext.zcEncrypt e.pw (e.buffer.take 11 ++ [(crc >>> 24).toUInt8] ++ e.buffer.drop 12))
+    M.flush
 
 end S
 end Rs
